@@ -529,20 +529,6 @@ def _path_form(ctx, rule, f, local, who):
 def _cwd_table(ctx, rule, f, who):
     """current_dir decision of the execdir flavour: parent None -> the path itself; parent == "" -> unchanged; else the parent"""
     cds = [(b, t) for b, t in f.calls() if (t.callee or "").split("::<")[0].endswith("Command::current_dir")]
-    got = []
-    for b, t in cds:
-        o = prim.origin_of_operand(f, t.args[1])
-        gs = prim.dominating_guards(f, b)
-        names = [c.a["name"] for c in o.call_nodes()]
-        disc = None
-        for gd in gs:
-            pr = gd["pred"].strip()
-            if pr.k == "discr" and any(c.a["name"] == "parent" for c in pr.call_nodes()):
-                disc = gd["labels"]
-        if "parent" in names:
-            got.append(("parent", disc, set(names) <= {"parent", "path", "as_ref", "deref"}))
-        else:
-            got.append(("self", disc, set(names) <= {"path", "as_ref", "deref"}))
     empties = []
     for b in f.reachable():
         t = f.blocks[b].term
@@ -550,19 +536,35 @@ def _cwd_table(ctx, rule, f, who):
             pr = prim.switch_pred(f, b).strip()
             if pr.k == "call" and pr.a["name"] in ("eq", "ne") and any(c.get("v") == "" for c in pr.consts()) and any(c.a["name"] == "parent" for c in pr.call_nodes()):
                 empties.append(b)
-    ok = sorted((k, tuple(d or [])) for k, d, _ in got) == [("parent", (1,)), ("self", (0,))] and all(x[2] for x in got) and len(empties) == 1
-    if ok:
-        # the Some(parent) current_dir sits on the not-empty side of the comparison
-        for b, t in cds:
-            o = prim.origin_of_operand(f, t.args[1])
-            if any(c.a["name"] == "parent" for c in o.call_nodes()):
-                gs = prim.dominating_guards(f, b)
-                side = [gd for gd in gs if gd["bb"] == empties[0]]
+    got = []
+    side_ok = True
+    for b, t in cds:
+        o = prim.origin_of_operand(f, t.args[1])
+        # the directory may be chosen first and handed to one current_dir call (`if let Some(dir) = choose(path)`): every
+        # alternative is judged under the conditions of the branch that produced it
+        for alt in prim.flatten_phi(o):
+            abb = alt.bb if alt.bb is not None else (alt.strip().bb if alt.strip().bb is not None else b)
+            gs = prim.dominating_guards(f, abb)
+            seen_bb = {gd["bb"] for gd in gs}
+            gs = gs + [gd for gd in prim.dominating_guards(f, b) if gd["bb"] not in seen_bb]
+            names = [c.a["name"] for c in alt.call_nodes()]
+            disc = None
+            for gd in gs:
+                pr = gd["pred"].strip()
+                if pr.k == "discr" and any(c.a["name"] == "parent" for c in pr.call_nodes()):
+                    disc = gd["labels"]
+            if "parent" in names:
+                got.append(("parent", disc, set(names) <= {"parent", "path", "as_ref", "deref"}))
+                # the Some(parent) choice sits on the not-empty side of the comparison with ""
+                side = [gd for gd in gs if empties and gd["bb"] == empties[0]]
                 pr = side[0]["pred"].strip() if side else None
-                ok = bool(side) and ((pr.a["name"] == "eq") == (side[0]["bool"] is False))
+                side_ok = side_ok and bool(side) and ((pr.a["name"] == "eq") == (side[0]["bool"] is False))
+            else:
+                got.append(("self", disc, set(names) <= {"path", "as_ref", "deref"}))
+    ok = sorted(set((k, tuple(d or [])) for k, d, _ in got)) == [("parent", (1,)), ("self", (0,))] and all(x[2] for x in got) and len(empties) == 1 and side_ok
     ctx.ob(rule, "cwd-table:%s" % who, ok,
            "%s working-directory decision: %s (+%d empty-parent tests); oracle: no parent -> the path itself ('/'), parent \"\" -> stay, otherwise chdir to the parent" % (who, [(k, d) for k, d, _ in got], len(empties)),
-           fn=f, how="dominating guards on Path::parent()")
+           fn=f, how="dominating guards on Path::parent(), per alternative of the directory")
 
 
 def _command_factories(prog):
